@@ -48,6 +48,7 @@ extern struct leaf g_leaf;
 extern int g_count;
 enum { ANON_A = 1, ANON_B };
 #define M_ONE 1
+enum { LATER_A = 5, LATER_B };
 """,
         "decls": {
             "u32_t": decl("type", "u32_t", [], ["u32_t"]),
@@ -69,6 +70,9 @@ enum { ANON_A = 1, ANON_B };
             "anon": decl("anonenum", "ANON_A", [], ["ANON_A", "ANON_B", "_bindgen_ty_1"],
                          names=["ANON_A", "ANON_B"], alt=False),
             "M_ONE": decl("var", "M_ONE", [], ["M_ONE"], alt=False),
+            # a second unnamed enum: its generated type name must not depend on what else is selected
+            "anon2": decl("anonenum", "LATER_A", [], ["LATER_A", "LATER_B", "_bindgen_ty_2"],
+                          names=["LATER_A", "LATER_B"], alt=False),
         }},
     # one declaration per kind of type constructor, each over a typedef that nothing else mentions: the
     # traversal has to follow the edge of every TypeKind (vector, array, pointer, qualified, function return)
